@@ -151,7 +151,7 @@ fn ladder_sweep(tier: Tier) -> Sweep {
             }
         }
     }
-    let max_n = tier.pick(512, 8192);
+    let max_n = tier.pick(512, 4096);
     let cap_s = tier.pick(8.0, 40.0);
     let fams2 = fams.clone();
     Sweep::new(
@@ -311,7 +311,7 @@ fn group_program(kinds: usize, offsets: usize, body_last: bool, n: usize) -> Vec
 }
 
 fn group_sweep(tier: Tier) -> Sweep {
-    let max_n = tier.pick(256, 2048);
+    let max_n = tier.pick(256, 1024);
     let cap_s = tier.pick(8.0, 40.0);
     let describe = |idx: u64| {
         let v = idx as usize % 3;
@@ -475,7 +475,7 @@ impl Prop for C17 {
     fn evidence(&self, tier: Tier) -> EvidenceSpec {
         EvidenceSpec {
             level: "exploration",
-            rule: "all input families of period 1 and 2 over 31 syntactic wrappers (parentheses, sums left/right, differences, negation, products, application left/right, comparison, let / annotated let / let nested in a definition, if nested in the else / then / condition position, the four lambda forms and the annotation position, pi, arrows left/right, application / sum / product chains ending in two parenthesised operands nested through either of them, and groups of two and three members whose body is a parenthesised group of its own or whose first definition is one), i.e. 31 + 930 families, each in 8 variants (well formed; suffix dropped; last 1, 2, 3 tokens dropped; a wrong token planted at 1/4, 1/2, 3/4), on the ladder n = 1, 2, 4, .., 512 (quick) / 8192 (thorough); the real tokenize+parse is run on a 2 GiB stack and its heap allocations counted; every rung must finish within the cap (CPU time of the parsing thread, so machine load does not matter), every rung must satisfy allocations <= 40 tokens^2 + 200000 (measured on the unchanged tree: <= 2 tokens^2), and well-formed variants must satisfy work(2n) <= 6 work(n) from n >= 64 (measured: 2.00). Second sweep, long definition sequences as reference graphs: groups of n = 1, 2, 4, .., 256 (quick) / 2048 (thorough) definitions where definition i mentions d(i+o) for every o of an offset set, for all 31 non-empty offset sets within {-2,-1,+1,+2,+3}, three kind patterns (all lambdas; a non-value head then lambdas; all non-values), body d0 or the last definition, three variants (complete, last token dropped, wrong token in the middle) — 558 families x variants under the same time cap and envelope (measured: <= 0.7 tokens^2). Third sweep, 14 lexical families (one long identifier, literal, comment, run of blanks / tabs / line breaks / CRLF / comment lines, one definition per line, stray symbols, operators without operands) to 4096 / 65536 repetitions (1024 / 4096 where every diagnostic quotes the line), with characters in the place of tokens. evaluations = families x variants; non-trivial = those whose whole ladder was measured".to_owned(),
+            rule: "all input families of period 1 and 2 over 31 syntactic wrappers (parentheses, sums left/right, differences, negation, products, application left/right, comparison, let / annotated let / let nested in a definition, if nested in the else / then / condition position, the four lambda forms and the annotation position, pi, arrows left/right, application / sum / product chains ending in two parenthesised operands nested through either of them, and groups of two and three members whose body is a parenthesised group of its own or whose first definition is one), i.e. 31 + 930 families, each in 8 variants (well formed; suffix dropped; last 1, 2, 3 tokens dropped; a wrong token planted at 1/4, 1/2, 3/4), on the ladder n = 1, 2, 4, .., 512 (quick) / 4096 (thorough); the real tokenize+parse is run on a 2 GiB stack and its heap allocations counted; every rung must finish within the cap (CPU time of the parsing thread, so machine load does not matter), every rung must satisfy allocations <= 40 tokens^2 + 200000 (measured on the unchanged tree: <= 2 tokens^2), and well-formed variants must satisfy work(2n) <= 6 work(n) from n >= 64 (measured: 2.00). Second sweep, long definition sequences as reference graphs: groups of n = 1, 2, 4, .., 256 (quick) / 1024 (thorough) definitions where definition i mentions d(i+o) for every o of an offset set, for all 31 non-empty offset sets within {-2,-1,+1,+2,+3}, three kind patterns (all lambdas; a non-value head then lambdas; all non-values), body d0 or the last definition, three variants (complete, last token dropped, wrong token in the middle) — 558 families x variants under the same time cap and envelope (measured: <= 0.7 tokens^2). Third sweep, 14 lexical families (one long identifier, literal, comment, run of blanks / tabs / line breaks / CRLF / comment lines, one definition per line, stray symbols, operators without operands) to 4096 / 65536 repetitions (1024 / 4096 where every diagnostic quotes the line), with characters in the place of tokens. evaluations = families x variants; non-trivial = those whose whole ladder was measured".to_owned(),
             assumptions: vec![
                 "a growth law on a finite ladder is evidence of the law, not a proof for all n".to_owned(),
                 "heap allocations are proportional to parse-function executions (every constructed term, cache insert and error closure allocates)".to_owned(),
@@ -486,7 +486,7 @@ impl Prop for C17 {
             transitions: None,
             traces: None,
             exhaustive: true,
-            bounds: json!({"max_n": tier.pick(512, 8192), "time_cap_s": tier.pick(8.0, 40.0), "wellformed_growth_factor": 6, "envelope": "40*T^2+200000"}),
+            bounds: json!({"max_n": tier.pick(512, 4096), "time_cap_s": tier.pick(8.0, 40.0), "wellformed_growth_factor": 6, "envelope": "40*T^2+200000"}),
             minimums: vec![("wellformed_accepted", 5000), ("malformed_rejected", 10_000), ("rungs", 40_000), ("group_families_x_variants", 558), ("groups_accepted", 500), ("groups_rejected", 500)],
         }
     }
